@@ -35,12 +35,17 @@ class varbyteint_to_int:
 class varstr:
     """var_str: CompactSize length prefix followed by the data, for every byte string."""
     params = {'string': Bytes}
+    use_opaque = False          # this contract is the one that establishes what ser_string is for the callers
 
     def requires(string):
         return len(string) < 2 ** 64
 
     def result_is(string):
         return wire.ser_string(string)
+
+    def effective(string):
+        # what callers may rely on while F-varstr-00 is open: the specified result, except for the pinned input
+        return string if string == b'\0' else wire.ser_string(string)
 
     pins = {
         # the library's special case: a single zero byte is returned unchanged
